@@ -34,7 +34,7 @@ def var_case(draw):
     W = draw(st.one_of(st.none(), gens.array((sv.m,), 0.4, 2.5, styles=("raw",))))
     return dict(system=sysd, rows=rows, eps_kind=ek, eps=eps_abs, samples=samples, use_l1=use_l1, l1_t=draw(st.floats(0.0, 1.0)), W=W,
                 l2_eps=draw(gens.log_uniform(1e-4, 1e-2)), l1_eps=draw(gens.log_uniform(1e-3, 1e-1)),
-                accuracy=draw(st.sampled_from(["high", "high", "default"])))
+                accuracy=draw(st.sampled_from(["high", "high", "default"])), repeat=draw(st.sampled_from([False, False, True])))
 
 
 def propagated(eps_abs, K):
@@ -136,14 +136,28 @@ def body_var(case):
             src[np.arange(sv.n), np.arange(sv.n) + 1] = 1.0
             est.register_system(src, lb=sv.lb_arg(), ub=sv.ub_arg())
             X, Bp, Bv = est.minimize_variance(B, l2_eps=l2_eps, L1=L1, l1_eps=l1_eps, **opt)
+            if case.get("repeat"):
+                again = est.minimize_variance(B, l2_eps=l2_eps, L1=L1, l1_eps=l1_eps, **opt)
         else:
             from dreye.api.optimize.lsq_linear import lsq_linear_minimize
 
             Earg = "heteroscedastic" if ek == "hetero" else (None if ek == "none_fn" else eps_abs)
+            E0 = Earg.copy() if isinstance(Earg, np.ndarray) else None
             X, Bp, Bv = lsq_linear_minimize(sv.A, B, Earg, W=w_arg, l2_eps=l2_eps, L1=L1, l1_eps=l1_eps, return_pred=True, **sv.kwargs(), **opt)
+            if E0 is not None:
+                check(np.array_equal(E0, Earg), "var:input-modified", "the caller's variance matrix was modified by the call")
+            if case.get("repeat"):
+                again = lsq_linear_minimize(sv.A, B, Earg, W=w_arg, l2_eps=l2_eps, L1=L1, l1_eps=l1_eps, return_pred=True, **sv.kwargs(), **opt)
     X, Bp, Bv = np.asarray(X), np.asarray(Bp), np.asarray(Bv)
     check(X.shape == (B.shape[0], sv.n) and Bp.shape == B.shape and Bv.shape == B.shape, "var:shape", f"{X.shape} {Bp.shape} {Bv.shape}")
     labs = sv.labels() + [f"eps:{ek}", "L1" if L1 is not None else "noL1", "acc:high" if high else "acc:default", "W" if w_arg is not None else "noW"]
+    if case.get("repeat"):
+        # the same request on the same estimator / with the same arrays: the variance model in force must not drift between calls
+        for name, a, b_ in zip(("intensities", "predicted capture", "capture variance"), (X, Bp, Bv), again):
+            b_ = np.asarray(b_)
+            check(a.shape == b_.shape and np.all(np.abs(a - b_) <= 1e-7 * (np.abs(a) + 1e-6 * float(np.max(np.abs(a))) + 1e-300)), "var:second-call-differs",
+                  f"{name} of an identical second call differ: {a.tolist()} vs {b_.tolist()} (Epsilon={ek})")
+        labs.append("repeated-call")
     rng = sv.ub - sv.lb
     tolx = (1e-5 if high else 1e-2) * float(np.max(rng))
     check(np.all(X >= sv.lb - tolx) and np.all(X <= sv.ub + tolx), "var:bounds", f"intensities {X.tolist()} outside [{sv.lb.tolist()}, {sv.ub.tolist()}]")
